@@ -2,7 +2,7 @@
 
 Decided: exhaustiveness (every Trace subclass with inner structure overrides get_inner_trace; the base raises); wrappers (Vmap, Scan, Mask, Dimap) delegate to
 self.inner with the address unchanged; StaticTrace indexes subtraces by the full address; SwitchTrace selects the sub-trace by the trace's own clamped index;
-get_subtrace folds left over the addresses; StaticTrace score / choices are assembled from the same subtraces (so a subtrace's score is that call's contribution).
+get_subtrace folds left over the addresses; every combinator trace score is aggregated from the STORED sub-traces (SCORE-AGG / SCORE-GATE); StaticTrace score / choices are assembled from the same subtraces (so a subtrace's score is that call's contribution).
 Not decided: numeric equality of the contribution.
 """
 from ..gfi.all import ALL
